@@ -27,12 +27,17 @@ Proof.
   destruct (decode_ok_valid _ _ Hd) as (h' & buf' & Hfw & Hc & _ & Hl). rewrite E in Hfw. injection Hfw as <- <-.
   exists rd, h, buf. auto.
 Qed.
-(* the mask: any syscall number is either set or rejected, never an index out of range *)
-Theorem C13_mask_total : forall m n, (exists m', set_syscall m n = Some m' /\ length m' = length m) \/ set_syscall m n = None.
+(* the mask: a syscall number is rejected exactly when it is beyond the mask's 32*len bits, and is
+   otherwise set in a mask of the same length - never an index out of range *)
+Theorem C13_mask_total : forall m n,
+  (set_syscall m n = None <-> 32 * N.of_nat (length m) <= n) /\
+  ((n < 32 * N.of_nat (length m)) -> exists m', set_syscall m n = Some m' /\ length m' = length m).
 Proof.
-  intros m n. destruct (N.ltb_spec n (32 * N.of_nat (length m))).
-  - left. apply set_syscall_total. auto.
-  - right. apply set_syscall_rejects. auto.
+  intros m n. split; [split|].
+  - intros H. destruct (N.ltb_spec n (32 * N.of_nat (length m))) as [L|L]; [|exact L].
+    destruct (set_syscall_total m n L) as (m' & E & _). rewrite E in H. discriminate.
+  - apply set_syscall_rejects.
+  - apply set_syscall_total.
 Qed.
 
 Print Assumptions C13_decode_total.
